@@ -131,6 +131,9 @@ class StmtGen:
         r = rnd.random()
         if depth <= 0:
             r = r * 0.42
+        if "regions" in self.f and depth > 0 and rnd.random() < 0.1:
+            # an autoescape block: constant (lexical switch) or decided at run time (volatile); a scope of its own
+            return J.Autoescape(rnd.choice([C(True), C(False), N(self.name()), C(True), C(False)]), self.body(depth - 1, inloop, inmacro))
         if r < 0.05 and (self.macros or self.frags):
             # a rendered fragment as an operand of ~ (it must keep its safe flag: C15 / C16)
             if self.macros and (not self.frags or rnd.random() < 0.6):
@@ -371,7 +374,26 @@ def _block_body(rnd, lvl, name, others, depth, in_root, used, allow_nested=True)
     return body
 
 
-def inherit_case(rnd, cid, auto=None):
+def _child_toplevel_extras(rnd):
+    """Statements that write output, placed outside of blocks in a child template: none of it may be rendered
+    (and `{{ 1 // 0 }}` is not even evaluated)."""
+    out = []
+    for _ in range(rnd.randint(0, 3)):
+        k = rnd.random()
+        if k < 0.3:
+            out.append(J.Include(C("inc"), with_context=rnd.random() < 0.6))
+        elif k < 0.5:
+            out.append(J.FilterBlock(rnd.choice(["string", "default"]), [J.Text("FB"), J.Out(N("s"))]))
+        elif k < 0.7:
+            out += [J.Macro("mm", [], [], [J.Text("M"), J.Out(J.Call(N("caller")))]), J.CallBlock(N("mm"), [], [], [J.Text("CB")])]
+        elif k < 0.8:
+            out.append(J.Out(J.Bin("//", C(1), C(0))))
+        else:
+            out.append(J.SetBlock("sb", [J.Text("S"), J.Include(C("inc"))]))
+    return out
+
+
+def inherit_case(rnd, cid, auto=None, rich=False):
     depth = rnd.randint(1, 4)
     names = [f"t{i}" for i in range(depth)]
     tpls = {}
@@ -396,6 +418,8 @@ def inherit_case(rnd, cid, auto=None):
                 body.append(J.Text("OUTSIDE"))
             if rnd.random() < 0.5:
                 body.append(J.Set(rnd.choice(["x", "y"]), C(lvl)))
+            if rich:
+                body += _child_toplevel_extras(rnd)
         else:
             body.append(J.Text("R["))
             if rnd.random() < 0.4:
@@ -413,10 +437,22 @@ def inherit_case(rnd, cid, auto=None):
                 blk = J.Block(bn, [], required=True)
             else:
                 blk = J.Block(bn, _block_body(rnd, lvl, bn, others, 1, is_root, used), scoped=False)
+            if rich and not req and rnd.random() < 0.4:
+                blk["body"].append(rnd.choice([J.Out(N("s")), J.Include(C("inc")), J.FilterBlock("string", [J.Out(N("s"))])]))
             if is_root and rnd.random() < 0.25:
                 scoped = rnd.random() < 0.6
                 blk = dict(blk, scoped=scoped)
                 body.append(J.For(J.TName("i"), J.List([C(1), C(2)]), [blk, J.Text(",")]))
+            elif rich and rnd.random() < 0.45:
+                # a block nested in a statement: inside an autoescape block it takes that block's mode; at the
+                # top level of a child template it is a definition only, whatever it is nested in
+                k = rnd.random()
+                if k < 0.5:
+                    body.append(J.Autoescape(rnd.choice([C(True), C(False), N("c")]), [blk] + ([J.Out(N("s"))] if rnd.random() < 0.5 else [])))
+                elif k < 0.75:
+                    body.append(J.With([("w", C(1))], [blk, J.Text("W")]))
+                else:
+                    body.append(J.For(J.TName("i"), J.List([C(1)]), [blk, J.Text("F")]))
             else:
                 body.append(blk)
             if is_root:
@@ -429,6 +465,8 @@ def inherit_case(rnd, cid, auto=None):
             if bn not in known:
                 known.append(bn)
         tpls[tn] = J.template(body, auto)
+    if rich:
+        tpls["inc"] = J.template([J.Text("INC"), J.Out(N("s"))], auto)
     datas = []
     for _ in range(3):
         d = {"s": rnd.choice([J.vstr(META), J.vstr("pl")]), "c": J.vbool(rnd.random() < 0.7)}
@@ -440,9 +478,9 @@ def inherit_case(rnd, cid, auto=None):
     return J.make_case(cid, tpls, names[-1], datas)
 
 
-def inherit_cases(seed, n, start_id=1, auto=None):
+def inherit_cases(seed, n, start_id=1, auto=None, rich=False):
     rnd = random.Random(seed)
-    return [inherit_case(rnd, start_id + i, auto) for i in range(n)]
+    return [inherit_case(rnd, start_id + i, auto, rich) for i in range(n)]
 
 
 # ---------------------------------------------------------------------------
